@@ -72,6 +72,9 @@ def monitor(l, impl_rows, kv):
         exp = 0 if (x and y) else 2
         return [] if got == str(exp) else ["compare_layouts(%s, %s) = %s, expected %s" % ("Some" if x else "None", "Some" if y else "None", got, NAMES[exp])]
     exp = G.layout_expected(l)
+    got = impl_rows.strip()
+    if len(got) == 4 and got[0] == "9":
+        return ["compare_layouts is not a function of the two descriptions: the pair was reported %s, the second description against itself %s, and the same pair asked again %s" % tuple(NAMES[int(x)] if x in "012" else x for x in got[1:])]
     if exp is not None and impl_rows.strip() != str(exp):
         return ["compare_layouts reports %s for a pair whose expected verdict is %s (0 Valid, 1 Invalid, 2 Unknown)" % (impl_rows.strip(), exp)]
     if l.startswith("20 "):
